@@ -154,6 +154,19 @@ func sizeClass(n int) string {
 	}
 }
 
+// sampleOnce writes out the first case of each category (evidence coverage.samples).
+var sampled = map[string]bool{}
+var unchangedCuts []string
+
+func (w *world) sampleOnce(cat string, v map[string]interface{}) {
+	if sampled[cat] {
+		return
+	}
+	sampled[cat] = true
+	v["category"] = cat
+	w.r.Sample(v)
+}
+
 // ---------------------------------------------------------------- HTTP helpers
 
 func (w *world) do(method, url, ctype string, body []byte, hdr map[string]string) (int, []byte, http.Header, error) {
@@ -387,7 +400,12 @@ func (w *world) runWrite(s caseSpec) {
 	if s.Size > 0 {
 		r.Nontrivial(s.key())
 	}
-	r.Sample(map[string]interface{}{"case": s, "path": path, "status": st})
+	switch {
+	case store == "inline":
+		w.sampleOnce("write-inline", map[string]interface{}{"case": s, "path": path, "status": st, "verified": clean})
+	case s.Size > MiB:
+		w.sampleOnce("write-multi-chunk", map[string]interface{}{"case": s, "path": path, "status": st, "verified": clean})
+	}
 }
 
 // ---------------------------------------------------------------- append cases
@@ -559,7 +577,9 @@ func (w *world) runAppend(s caseSpec) {
 			r.Nontrivial(s.key() + fmt.Sprint(i))
 		}
 	}
-	r.Sample(map[string]interface{}{"case": s, "path": path})
+	if s.Base == "grpc-mount" {
+		w.sampleOnce("append-chain", map[string]interface{}{"case": s, "path": path, "final_size": len(cur)})
+	}
 }
 
 // ---------------------------------------------------------------- cut bodies
@@ -677,7 +697,7 @@ func (w *world) runCut(s caseSpec) {
 	var err error
 	polls := 1
 	if status == 0 {
-		polls = 10
+		polls = 25
 	}
 	for i := 0; i < polls; i++ {
 		obs, err = w.observe(fe, path)
@@ -733,7 +753,9 @@ func (w *world) runCut(s caseSpec) {
 	if same(obs) {
 		if status/100 != 2 {
 			r.Count("cuts_left_state_unchanged", 1)
-			r.Sample(map[string]interface{}{"case": s, "status": status, "state": "unchanged"})
+			unchangedCuts = append(unchangedCuts, fmt.Sprintf("#%d %s %s sent=%d/%d close=%s status=%d", s.Idx, s.Method, s.Enc, s.Sent, s.Declared, s.Close, status))
+			r.Note("cuts_left_state_unchanged_cases", unchangedCuts)
+			w.sampleOnce("cut-refused", map[string]interface{}{"case": s, "status": status, "resp": note, "state": "unchanged"})
 			return
 		}
 		// a success answer to a request whose body never arrived completely
@@ -757,6 +779,7 @@ func (w *world) runCut(s caseSpec) {
 		sig["class"] = "cut-body-other-content-committed"
 	}
 	r.Count("cuts_changed_state", 1)
+	w.sampleOnce("cut-accepted", map[string]interface{}{"case": s, "status": status, "resp": note, "class": sig["class"], "committed": short(obs.Data)})
 	r.Violation(sig, detail)
 }
 
@@ -990,7 +1013,7 @@ func main() {
 	r := lib.Start("C25", "fault_enumeration")
 	r.SetRule("cases against a real cluster with two filers (-maxMB=1, saveToFilerLimit 0 and 512): (write) PUT / multipart POST of unique bodies with sizes {0,1,511,512,513,1MiB±1,2MiB±1,3.5MiB} plus seeded sizes near the inline and chunk borders, compressible bodies, ?maxMB=2, replacement of an existing file; (append) ?op=append chains onto files created by PUT, POST, gRPC CreateEntry with and without the size attribute, a size attribute beyond the chunks, S3 multipart completion, inline, empty, absent; (cut) raw-socket requests that send k of N declared bytes / broken chunked framing and end by half-close, close or reset, on new and existing paths. distinct = distinct case descriptor (route, filer, size, base kind, cut position, framing, way of ending); non-trivial = non-empty body whose stored state was judged")
 	r.Assume("stored state is observed through LookupDirectoryEntry + the harness' own resolution of the chunk list (seaweedfs' interval logic and HTTP chunk reader are the trusted base there) and through the filer's GET")
-	r.Assume("after a cut request that the client did not wait on (close/reset) the state is polled 10 times; a commit later than that would be missed, never invented")
+	r.Assume("after a cut request that the client did not wait on (close/reset) the state is polled 25 times (100 ms apart); a commit later than that would be missed, never invented")
 	r.Assume("a refused append (non-2xx) is not judged; sparse append bases are judged through their chunks only (HTTP GET of sparse files is C17's defect #35)")
 
 	w := &world{r: r, hc: &http.Client{Timeout: 180 * time.Second, Transport: &http.Transport{DisableCompression: true, MaxIdleConnsPerHost: 4}}}
